@@ -185,6 +185,49 @@ def _starts(s, p):
     return s.startswith(p)
 
 
+# ------------------------------------------------------------ the docutils line-length limit: a line is refused only when it is LONGER than the limit
+
+
+def check_long_line(limit, delta, pos, real=False):
+    from docutils import nodes
+
+    n = limit + delta
+    long_line = ("x" * n)
+    lines = ["first", "", "second"]
+    lines[pos * 2 if pos < 2 else 2] = long_line
+    text = "\n".join(lines) + "\n"
+    doc, warn = CR.publish(text, {"line_length_limit": limit, "report_level": 5}, real=real)
+    paras = [p_.astext() for p_ in doc.findall(nodes.paragraph) if not isinstance(p_.parent, nodes.system_message)]
+    if delta <= 0 and long_line not in paras:
+        return ("line-at-limit-refused", "a line of %d characters with line_length_limit=%d: paragraphs %r" % (n, limit, [x[:30] for x in paras]))
+    if delta > 0 and long_line in paras and not list(doc.findall(nodes.system_message)):
+        return None  # (rendering a longer line is not a fidelity problem)
+    return None
+
+
+def make_long_line(eng):
+    CR.setup_pipeline()
+    c = CR.Choice(eng)
+    state = {}
+    eng.witness_fn = lambda m: dict(state)
+
+    def body():
+        c.reset()
+        limit, delta, pos = c.pick([10, 20, 200]), c.pick([-1, 0, 1]), c.choose(3)
+        state.update(long_line=[limit, delta, pos])
+        try:
+            err = check_long_line(limit, delta, pos)
+        except Exception as exc:  # noqa
+            eng.fail("render-raises", "%s: %s" % (type(exc).__name__, exc))
+        if err:
+            eng.fail(*err)
+        eng.passed(1)
+        eng.note("attr")
+        return "ok"
+
+    return body
+
+
 # ------------------------------------------------------------ links converted through a url_schemes template
 
 SCHEME_CONFIGS = [{"http": None, "wiki": {"url": "https://w.invalid/{{path}}#{{fragment}}", "title": "T {{path}}", "classes": ["wk"]}, "doi": "https://doi.invalid/{{path}}"},
@@ -911,6 +954,8 @@ def families(tier, seed):
     for n in ([3, 4] if q else [4, 5, 6]):
         F.append(Family("link/N%d" % n, make_link, "all link destinations of %d chars over '#:/.ahipnv&\\'' x all_links_external" % n, args=dict(n=n, alphabet="#:/.ahipnv&'"), nontrivial="attr", max_forks=200000,
                         required=(n <= (4 if q else 5))))
+    F.append(Family("long-line", make_long_line, "docutils front end with line_length_limit in (10, 20, 200): a first / middle / last line of limit-1, limit, limit+1 characters; a line no longer than the limit is rendered",
+                    nontrivial="attr", max_forks=1000))
     F.append(Family("link-url-schemes", make_scheme_links, "links with explicit text (emphasis, code), autolinks and text-less links whose scheme has a url_schemes template (with / without a title template, string or dict form), paths %r: "
                     "explicit text kept leaf by leaf, title template only for implicit text, refuri = filled template" % (SCHEME_PATHS,), nontrivial="attr", max_forks=1000))
     F.append(Family("link-sphinx/N3", make_link_sphinx, "Sphinx renderer: all link destinations of 3 chars over '#a./' (non-URL): the pending_xref carries the destination unchanged, '#' links stay local", args=dict(n=3, alphabet="#a./"),
@@ -929,6 +974,8 @@ def families(tier, seed):
     F.append(Family("struct/B1", make_struct, "one block from %r with two inline fragments from %r, CommonMark and MyST mode" % (BLK, INL), args=dict(nblocks=1, kinds=BLK), nontrivial="nested", max_forks=400000))
     F.append(Family("struct/headings", make_struct, "3-4 headings with levels 1/3/4 each followed by a paragraph (source order of leaves under level skips)", args=dict(nblocks=3 if q else 4, kinds=["h1", "h3", "h4"]),
                     nontrivial=None, max_forks=400000))
+    F.append(Family("struct/breaks", make_struct, "three blocks from thematic break / indented code / fence (runs of adjacent thematic breaks: each one reaches the doctree)", args=dict(nblocks=3, kinds=["hr", "code", "fence"]),
+                    nontrivial=None, max_forks=400000))
     F.append(Family("struct/B2", make_struct, "two blocks (inline fragments from a reduced set)", args=dict(nblocks=2, kinds=["para", "list", "quote", "table", "heading", "hr", "code"]), nontrivial="nested",
                     max_forks=800000, required=False))
     return F
@@ -941,6 +988,9 @@ def replay(label, witness):
         if "text" in witness:
             err = compare_doc(witness["text"], witness["mode"], real=True)
             return ("C02/%s" % err[0], "document %r: %s" % (witness["text"], err[1])) if err else None
+        if "long_line" in witness:
+            err = check_long_line(*witness["long_line"], real=True)
+            return ("C02/%s" % err[0], err[1]) if err else None
         if "scheme_link" in witness:
             err = check_scheme_links(*witness["scheme_link"], real=True)
             return ("C02/%s" % err[0], err[1]) if err else None
